@@ -7,15 +7,28 @@ package test
 // equal the sequence obtained for a benign value, and the value the lexer reads back must equal the value
 // the Cypher text denoted. Values: ALL strings up to length VERIF_BOUND over the alphabet
 // { ' " \ ; - a space $ } plus a few crafted longer ones.
+//
+// Extension (same oracle, four more input classes; a class named in VERIF_KNOWN ("|"-separated) is counted under
+// known_deviation_hits instead of failures):
+//   long-values          values of length 60..70 and 120..130 with a quote character or a backslash at every position 58..68
+//   long-lists           list literals and list-valued parameters with 1, 2, 16, 17, 18 and 40 hostile string elements
+//   fragment-whitespace  values with whitespace in every position that is inlined into the SQL text DAWGS hands to its
+//                        server-side traversal functions (nested quoting levels are decoded)
+//   param-types          parameters of every Go type in comparison, IN and property-map positions
 
 import (
 	"context"
 	"encoding/json"
 	"fmt"
+	"math"
+	"math/rand"
 	"os"
+	"reflect"
+	"sort"
 	"strconv"
 	"strings"
 	"testing"
+	"time"
 
 	"github.com/specterops/dawgs/cypher/frontend"
 	"github.com/specterops/dawgs/cypher/models/pgsql/translate"
@@ -176,7 +189,12 @@ func cyString(v string) string {
 
 func cyBacktick(v string) string { return "`" + strings.ReplaceAll(v, "`", "``") + "`" }
 
-func translateToSQL(q string, params map[string]any) (string, error) {
+func translateToSQL(q string, params map[string]any) (sqlText string, rerr error) {
+	defer func() {
+		if r := recover(); r != nil {
+			sqlText, rerr = "", fmt.Errorf("PANIC: %v", r)
+		}
+	}()
 	model, err := frontend.ParseCypher(frontend.NewContext(), q)
 	if err != nil {
 		return "", err
@@ -281,17 +299,40 @@ func TestVerifBoundedSQLText(t *testing.T) {
 	}
 	cases := 0
 	perPosition := map[string]int{}
+	known := map[string]bool{}
+	for _, k := range strings.Split(os.Getenv("VERIF_KNOWN"), "|") {
+		if k = strings.TrimSpace(k); k != "" {
+			known[k] = true
+		}
+	}
+	knownHits := map[string]int{}
+	// report: a violation found in one of the added classes (class "" = the original scope, never suppressed)
+	report := func(class, pos, format string, args ...any) {
+		if class != "" && known[class] {
+			knownHits[class]++
+			return
+		}
+		if class != "" {
+			pos = class + "/" + pos
+		}
+		fail(pos, format, args...)
+	}
+	sweep := func(class string, values []string) {
+	prefix := ""
+	if class != "" {
+		prefix = class + "/"
+	}
 	for _, pos := range positions {
 		// benign reference: the skeleton for a plain value; unquoted identifiers count as identifier slots
 		refQ, refP := pos.query("benign")
 		refSQL, err := translateToSQL(refQ, refP)
 		if err != nil {
-			perPosition[pos.name+" (never reaches SQL text: "+err.Error()+")"] = 0
+			perPosition[prefix+pos.name+" (never reaches SQL text: "+err.Error()+")"] = 0
 			continue
 		}
 		refToks, err := lexSQL(refSQL)
 		if err != nil {
-			fail(pos.name, "benign SQL does not lex: %v", err)
+			report(class, pos.name, "benign SQL does not lex: %v", err)
 			continue
 		}
 		refSkel := skeleton(refToks)
@@ -300,17 +341,20 @@ func TestVerifBoundedSQLText(t *testing.T) {
 			q, p := pos.query(v)
 			sql, err := translateToSQL(q, p)
 			if err != nil {
+				if strings.HasPrefix(err.Error(), "PANIC: ") {
+					report(class, pos.name, "value %q: the pipeline panics: %v", v, err)
+				}
 				continue // rejected: allowed by the property
 			}
 			cases++
-			perPosition[pos.name]++
+			perPosition[prefix+pos.name]++
 			toks, lerr := lexSQL(sql)
 			if lerr != nil {
-				fail(pos.name, "value %q: emitted SQL does not lex (%v): %s", v, lerr, sql)
+				report(class, pos.name, "value %q: emitted SQL does not lex (%v): %s", v, lerr, sql)
 				continue
 			}
 			if got := skeleton(toks); got != refSkel {
-				fail(pos.name, "value %q changes the token structure of the statement: %s", v, sql)
+				report(class, pos.name, "value %q changes the token structure of the statement: %s", v, sql)
 				continue
 			}
 			if pos.want == "free" {
@@ -323,11 +367,29 @@ func TestVerifBoundedSQLText(t *testing.T) {
 				}
 			}
 			if !found {
-				fail(pos.name, "value %q is not read back by PostgreSQL as the value the query denoted: %s", v, sql)
+				report(class, pos.name, "value %q is not read back by PostgreSQL as the value the query denoted: %s", v, sql)
 			}
 		}
 	}
-	res := map[string]any{"name": "sqltext", "bound": fmt.Sprintf("all strings up to length %d over %d hostile characters + %d crafted, %d positions", maxLen, len(alphabet), 9, len(positions)), "cases": cases, "per_position": perPosition, "exhaustive": true, "failures": failures}
+	}
+	sweep("", values)
+
+	// ---- added input classes ----
+	x := &xHarness{maxLen: maxLen, report: report, perPosition: perPosition, skeleton: skeleton}
+	if seed, err := strconv.ParseInt(os.Getenv("VERIF_SEED"), 10, 64); err == nil {
+		x.rng = rand.New(rand.NewSource(seed))
+	}
+	longValues := xLongValues()
+	x.shuffle(longValues)
+	sweep("long-values", longValues)
+	x.fragmentSweep("long-values", xLongFragmentValues(), false)
+	x.listSweep("long-lists")
+	x.fragmentSweep("fragment-whitespace", xWhitespaceValues(maxLen), true)
+	x.fragmentSweep("fragment-whitespace", values, false)
+	x.paramSweep("param-types")
+	cases += x.cases
+
+	res := map[string]any{"name": "sqltext", "bound": fmt.Sprintf("all strings up to length %d over %d hostile characters + %d crafted, %d positions; + long values (%d), long lists (sizes 1,2,16,17,18,40), whitespace values (%d) in traversal fragments, parameter Go types (%d)", maxLen, len(alphabet), 9, len(positions), len(longValues), len(xWhitespaceValues(maxLen)), len(xParamValues())), "cases": cases, "per_position": perPosition, "exhaustive": true, "failures": failures, "known_deviation_hits": knownHits}
 	out, _ := json.Marshal(res)
 	fmt.Println("BOUNDED-RESULT " + string(out))
 	if len(failures) > 0 {
